@@ -7,40 +7,42 @@ Proof.
   intros H L. rewrite <- (N.mod_small x (2 ^ n)) by exact H. apply N.mod_pow2_bits_high. exact L.
 Qed.
 
-(* one SetAttributeOffset never SETS a bit at position 40 or above (offsets stay below 2^8) *)
+(* one SetAttributeOffset never SETS a bit at position 44 or above (attr <= 8, offsets below 2^8) *)
 Lemma sa_set_attr_offset_high desc attr off d' m :
-  sa_set_attr_offset desc attr off = Ok d' -> off < 256 -> 40 <= m ->
+  sa_set_attr_offset desc attr off = Ok d' -> attr <= 8 -> off < 256 -> 44 <= m ->
   N.testbit d' m = true -> N.testbit desc m = true.
 Proof.
-  unfold sa_set_attr_offset. destruct (attr =? 0); [intros E; injection E as <-; auto|].
-  destruct (N.leb_spec 32 (4 * attr + 4)) as [|LT]; [discriminate|].
-  intros E HO HM. cbv zeta in E.
+  unfold sa_set_attr_offset. destruct (attr =? 0).
+  { intros E. apply (f_equal (fun r => match r with Ok x => x | _ => 0 end)) in E. cbv beta iota in E. rewrite <- E. auto. }
+  intros E HA HO HM.
   apply (f_equal (fun r => match r with Ok x => x | _ => 0 end)) in E. cbv beta iota in E. rewrite <- E. clear E.
   rewrite N.lor_spec, N.ldiff_spec.
   assert (A : N.testbit (N.shiftl off (4 * attr + 2) mod sa_two64) m = false).
-  { apply (sa_bit_high_small _ 40); [|exact HM].
+  { apply (sa_bit_high_small _ 44); [|exact HM].
     eapply N.le_lt_trans; [apply N.mod_le; unfold sa_two64; lia|].
     rewrite N.shiftl_mul_pow2.
-    assert (P : 2 ^ (4 * attr + 2) <= 2 ^ 30) by (apply N.pow_le_mono_r; lia).
-    change (2 ^ 40) with (256 * 2 ^ 32). change (2 ^ 30) with 1073741824 in P. change (2 ^ 32) with 4294967296. nia. }
+    assert (P : 2 ^ (4 * attr + 2) <= 2 ^ 34) by (apply N.pow_le_mono_r; lia).
+    change (2 ^ 44) with (256 * 2 ^ 36). change (2 ^ 34) with 17179869184 in P. change (2 ^ 36) with 68719476736. nia. }
   rewrite A. cbn [orb]. intros H. apply andb_true_iff in H. destruct H as [H _]. exact H.
 Qed.
 
 Lemma sa_attr_loop_high : forall sizes va d v d' v' m,
   sa_attr_loop sizes va d v = Ok (d', v') -> Forall (fun sz => sz <= 4) sizes ->
-  v + 16 * N.of_nat (length sizes) < 256 -> 40 <= m ->
+  va + N.of_nat (length sizes) <= 9 ->
+  v + 16 * N.of_nat (length sizes) < 256 -> 44 <= m ->
   (N.testbit d' m = true -> N.testbit d m = true) /\ v' <= v + 16 * N.of_nat (length sizes).
 Proof.
-  induction sizes as [|sz rest IH]; intros va d v d' v' m E F B HM; cbn [sa_attr_loop] in E.
-  - injection E as <- <-. split; [auto | simpl; lia].
+  induction sizes as [|sz rest IH]; intros va d v d' v' m E F VA B HM; cbn [sa_attr_loop] in E.
+  - apply (f_equal (fun r => match r with Ok x => x | _ => (0, 0) end)) in E. cbv beta iota in E.
+    injection E as <- <-. split; [auto | simpl; lia].
   - inversion F as [|? ? Hsz F']; subst.
     assert (LEN : N.of_nat (length (sz :: rest)) = N.of_nat (length rest) + 1) by (simpl; lia).
     rewrite LEN in *.
     destruct (sz =? 0).
-    + destruct (IH _ _ _ _ _ m E F' ltac:(lia) HM) as [A C]. split; [exact A | lia].
+    + destruct (IH _ _ _ _ _ m E F' ltac:(lia) ltac:(lia) HM) as [A C]. split; [exact A | lia].
     + destruct (sa_set_attr_offset d va v) as [d1| |] eqn:S; cbn [bind] in E; try discriminate.
-      destruct (IH _ _ _ _ _ m E F' ltac:(lia) HM) as [A C]. split; [|lia].
-      intros H. apply (sa_set_attr_offset_high d va v d1 m S ltac:(lia) HM). apply A. exact H.
+      destruct (IH _ _ _ _ _ m E F' ltac:(lia) ltac:(lia) HM) as [A C]. split; [|lia].
+      intros H. apply (sa_set_attr_offset_high d va v d1 m S ltac:(lia) ltac:(lia) HM). apply A. exact H.
 Qed.
 
 Lemma sa_attr_sizes_small ver s : Forall (fun sz => sz <= 4) (sa_bs_attr_sizes ver s) /\ length (sa_bs_attr_sizes ver s) = 9%nat.
@@ -60,7 +62,7 @@ Proof.
   apply (f_equal (fun r => match r with Ok x => sa_b_desc x | _ => 0 end)) in E. cbv beta iota in E.
   cbn [sa_b_desc] in E. rewrite <- E. clear E.
   destruct (sa_attr_sizes_small ver s) as [F LEN].
-  destruct (sa_attr_loop_high _ _ _ _ _ _ (44 + k) L F ltac:(rewrite LEN; simpl; lia) ltac:(lia)) as [A C].
+  destruct (sa_attr_loop_high _ _ _ _ _ _ (44 + k) L F ltac:(rewrite LEN; simpl; lia) ltac:(rewrite LEN; simpl; lia) ltac:(lia)) as [A C].
   rewrite LEN in C. change (0 + 16 * N.of_nat 9) with 144 in C.
   set (m := 44 + k) in *.
   assert (MK : N.testbit sa_DESC_MASK_OFFSET m = true).
